@@ -314,14 +314,19 @@ def rule_windows(ctx):
         sym = ctx.sym(b)
         calls = recursive_calls(ix, b, C.ALPHA_BETA)
         kinds = []
+        where_chosen = {}
         for bi, t in calls:
-            n += 1
-            a, bb, d = sym.operand(t["args"][2]), sym.operand(t["args"][3]), sym.operand(t["args"][4])
-            k = window_kind(a, bb)
-            kinds.append((bi, k))
+            # `let lower = if pvs { -alpha - 1 } else { -beta }; search(lower, -alpha)`: one call site, two windows, each
+            # chosen in its arm
+            bb, d = sym.operand(t["args"][3]), sym.operand(t["args"][4])
             dep_ok = d[0] == "bin" and d[1].startswith("Sub") and d[2] == ("arg", "depth") and d[3] == ("const", 1, "u8")
-            ctx.check(k in ("full", "null") and dep_ok, c_dedup(ctx, "%s:call:%s" % (key, k)), "child searched with the %s window (%s, %s) at depth - 1" % (k, expr_str(a), expr_str(bb)), b.where(bi),
-                      bad_what="a child is searched with window (%s, %s) at depth `%s`: not (-beta, -alpha) / (-alpha-1, -alpha) at depth-1" % (expr_str(a), expr_str(bb), expr_str(d)))
+            for vb, a in C.operand_cases(b, sym, bi, t["args"][2]):
+                k = window_kind(a, bb)
+                n += 1
+                kinds.append((bi, k))
+                where_chosen[(bi, k)] = vb
+                ctx.check(k in ("full", "null") and dep_ok, c_dedup(ctx, "%s:call:%s" % (key, k)), "child searched with the %s window (%s, %s) at depth - 1" % (k, expr_str(a), expr_str(bb)), b.where(bi),
+                          bad_what="a child is searched with window (%s, %s) at depth `%s`: not (-beta, -alpha) / (-alpha-1, -alpha) at depth-1" % (expr_str(a), expr_str(bb), expr_str(d)))
             # result negated: the destination flows into saturating_neg before reaching `score`
             dst = t["dest"]["l"]
             negd = any(callee_is(t2, "core::num::<impl i16>::saturating_neg") and op_place(t2["args"][0]) is not None and op_place(t2["args"][0])["l"] == dst for _b2, t2 in b.calls())
@@ -332,15 +337,25 @@ def rule_windows(ctx):
         fulls = [bi for bi, k in kinds if k == "full"]
         nulls = [bi for bi, k in kinds if k == "null"]
         if len(nulls) == 1 and len(fulls) == 2:
-            re = [f for f in fulls if b.dominates(nulls[0], f)]
+            re = [f for f in fulls if f != nulls[0] and b.dominates(nulls[0], f)]
             first = [f for f in fulls if f not in re]
             ok = len(re) == 1 and len(first) == 1
+            if ok and first[0] == nulls[0]:
+                # one call site for the first search: the null window must have been chosen under pvs
+                cons_n = C.constraints_for(ix, b, sym, where_chosen[(nulls[0], "null")])
+                ok = any(c[3] == ("var", "pvs") and True in c[1] for c in cons_n) or any(c[3] == ("arg", "pvs") and True in c[1] for c in cons_n)
             if ok:
                 cons = C.constraints_for(ix, b, sym, re[0])
-                lt1 = any(c[3][0] == "bin" and c[3][1] == "Lt" and c[3][2] == ("var", "alpha") and c[3][3] == ("var", "score") and True in c[1] for c in cons)
-                lt2 = any(c[3][0] == "bin" and c[3][1] == "Lt" and c[3][2] == ("var", "score") and is_beta(c[3][3]) and True in c[1] for c in cons)
+                def is_score(x):
+                    # the variable, or (when it is assigned once) what it holds: the negated value of the null-window search
+                    x = mir.strip_copies(x)
+                    if x == ("var", "score"):
+                        return True
+                    return x[0] == "call" and x[1].endswith("saturating_neg") and len(x[2]) == 1 and mir.strip_copies(x[2][0])[0] == "call" and mir.strip_copies(x[2][0])[1] == C.ALPHA_BETA
+                lt1 = any(c[3][0] == "bin" and c[3][1] == "Lt" and c[3][2] == ("var", "alpha") and is_score(c[3][3]) and True in c[1] for c in cons)
+                lt2 = any(c[3][0] == "bin" and c[3][1] == "Lt" and is_score(c[3][2]) and is_beta(c[3][3]) and True in c[1] for c in cons)
                 pv1 = any(c[3] == ("var", "pvs") and True in c[1] for c in cons)
-                cons_f = C.constraints_for(ix, b, sym, first[0])
+                cons_f = C.constraints_for(ix, b, sym, where_chosen[(first[0], "full")] if first[0] == nulls[0] else first[0])
                 pv0 = any(c[3] == ("var", "pvs") and False in c[1] for c in cons_f)
                 ok = lt1 and lt2 and pv1 and pv0
             ctx.check(ok, "%s:research-condition" % key, "null window only once a PV move exists; re-search with the full window iff alpha < score < beta", b.where(re[0] if re else 0),
@@ -663,7 +678,108 @@ def rule_exits(ctx):
                   bad_what="%s can take the next move without having searched the current one on a ground other than illegality (late-move / futility pruning of moves)" % C.short(key))
 
 
-RULES = [("exits", rule_exits), ("root-result", rule_root_result), ("permutation", rule_permutation), ("noninterference", rule_noninterference), ("windows", rule_windows), ("cut", rule_cut), ("terminal", rule_terminal)]
+def _counter_step(b, sym, s):
+    """+1 / -1 when statement s is `self.info.depth = self.info.depth +/- 1`; 'other' for any other store into it; None else."""
+    fp = fields_of(s["lhs"])
+    if fp[-2:] != ("info", "depth"):
+        return None
+    v = sym.rvalue(s["rv"])
+    if v[0] == "bin" and v[1].replace("WithOverflow", "").replace("Unchecked", "") in ("Add", "Sub") and v[3][:2] == ("const", 1):
+        a = mir.strip_copies(v[2])
+        if a[0] == "field" and a[-2:] == ("info", "depth"):
+            return 1 if v[1].startswith("Add") else -1
+    return "other"
+
+
+def rule_ply_counter(ctx):
+    """`info.depth` is the distance from the root at every node: it goes up by one exactly around each search of a child
+    (after the move is made, back down before the move is taken back) and is the same on every way to a point.  Mate scores
+    (`MIN + info.depth`), killer slots and seldepth all read it."""
+    ix = ctx.ix
+    n_calls = 0
+    for key in (C.ALPHA_BETA_START, C.ALPHA_BETA, C.QUIESCENCE):
+        b = ctx.body(key)
+        sym = ctx.sym(b)
+        # per block: what happens to (counter, moves on the board) inside it, in order
+        steps = {}
+        odd = []
+        for blk in b.blocks:
+            if blk.cleanup:
+                continue
+            ev = []
+            for s in blk.stmts:
+                st = _counter_step(b, sym, s)
+                if st == "other":
+                    odd.append(blk.idx)
+                elif st is not None:
+                    ev.append(("c", st))
+            t = blk.term
+            if t["k"] == "call":
+                if callee_is(t, "board::Board::make_move"):
+                    ev.append(("b", 1))
+                elif callee_is(t, "board::Board::unmake_move"):
+                    ev.append(("b", -1))
+                elif any(k in (C.ALPHA_BETA, C.QUIESCENCE) for k in ix.call_targets(t)):
+                    ev.append(("search", blk.idx))
+            steps[blk.idx] = ev
+        ctx.check(not odd, "%s:counter-only-stepped" % key, "%s changes info.depth only by +1 / -1" % C.short(key), b.where(odd[0] if odd else 0),
+                  bad_what="%s stores something other than info.depth +/- 1 into info.depth" % C.short(key))
+        # forward propagation of (counter delta, board delta) from entry
+        state = {0: {(0, 0)}}
+        work = [0]
+        at_call = {}
+        at_ret = {}
+        blown = False
+        while work and not blown:
+            bi = work.pop()
+            for (c, m) in list(state[bi]):
+                for kind, v in steps.get(bi, []):
+                    if kind == "c":
+                        c += v
+                    elif kind == "b":
+                        m += v
+                    else:
+                        at_call.setdefault(v, set()).add((c, m))
+                if b.blocks[bi].term["k"] == "return":
+                    at_ret.setdefault(bi, set()).add((c, m))
+                for sx in b.succ(bi):
+                    if sx < 0 or b.blocks[sx].cleanup:
+                        continue
+                    if (c, m) not in state.setdefault(sx, set()):
+                        if len(state[sx]) > 6 or abs(c) > 4 or abs(m) > 4:
+                            blown = True
+                            break
+                        state[sx].add((c, m))
+                        work.append(sx)
+        ctx.check(not blown, "%s:counter-bounded" % key, "the ply counter and the moves on the board stay within a fixed distance of their values at entry", b.where(0),
+                  bad_what="%s: the ply counter (or the number of moves made) drifts around a loop: it is not restored on every way round" % C.short(key))
+        if blown:
+            continue
+        for bi, sts in sorted(at_call.items()):
+            n_calls += 1
+            bad = sorted(x for x in sts if x[0] != x[1])
+            ctx.check(not bad, "%s:child-search-one-ply-down:%d" % (key, sorted(at_call).index(bi)),
+                      "a recursive search runs with info.depth raised by the number of moves made since entry (%s)" % sorted(sts), b.where(bi),
+                      bad_what="a recursive search at line %s runs with (counter raised by, moves made since entry) = %s: the subtree's ply counter is off, so mate distances, killer slots and seldepth are those of another ply"
+                      % (b.blocks[bi].term.get("line"), bad))
+        badr = sorted({x for sts in at_ret.values() for x in sts if x[0] != 0})
+        ctx.check(not badr, "%s:counter-restored-at-return" % key, "%s returns with info.depth as it found it" % C.short(key), b.where(0),
+                  bad_what="%s can return with info.depth changed by %s: every later node of the search is numbered wrongly" % (C.short(key), [x[0] for x in badr]))
+    ctx.floor("recursive search calls", n_calls, 6)
+    # nobody else steps the counter
+    writers = set()
+    for fb in ix.fn_bodies():
+        fsym = None
+        for bi, i, s in fb.stmts():
+            if fields_of(s["lhs"])[-2:] == ("info", "depth"):
+                writers.add(fb.key)
+    allowed = {C.ALPHA_BETA_START, C.ALPHA_BETA, C.QUIESCENCE}
+    extra = sorted(w for w in writers if w not in allowed and (ix.bodies[w].parent or w) not in allowed)
+    ctx.check(not extra, "counter-writers", "info.depth is written only by the three search functions", None,
+              bad_what="info.depth is also written by %s" % extra)
+
+
+RULES = [("exits", rule_exits), ("ply-counter", rule_ply_counter), ("root-result", rule_root_result), ("permutation", rule_permutation), ("noninterference", rule_noninterference), ("windows", rule_windows), ("cut", rule_cut), ("terminal", rule_terminal)]
 
 
 def run(tier):
